@@ -70,14 +70,10 @@ Definition replay_eqv (ed : bool) (r c : list dump_entry) : bool :=
 
 (** * Known-finding classes (narrow, on inputs and observations only)
 
-    class 1 (DEFECT C03_1, fixes/C03_1_delete_alias.diff): the call carries a
-      delete, at least two delete notifications were handed out by it, and an
-      earlier input of the case had a prefix object with spare slice capacity
-      (toDeleteNotification appends into the shared backing array);
-    class 2 (DEFECT C03_2, fixes/C03_2_atomic_suppress.diff): event-driven
-      emulation on, and some key holds an atomic notification in the replay
-      and a non-atomic one in the cache whose value equals the atomic one's
-      first value (the scalar was stored but never announced);
+    classes 1 and 2 were the two defects fixed by /repo 20c4a71 and 4775c12
+      (delete notifications aliasing a shared prefix slice; a scalar written
+      over an atomic container suppressed): their witnesses are ordinary
+      corpus cases now and a recurrence is a plain tag 2;
     class 3 (KF, same root as the index layout finding 7.21): the replay still
       holds a leaf the cache dropped, and an earlier input wrote that leaf
       through an update path carrying an origin under a prefix without one
@@ -128,28 +124,8 @@ Definition origin_written (ops : list cop) (e : dump_entry) : bool :=
     | _ => false
     end) ops.
 
-Definition has_shared_prefix (ops : list cop) : bool :=
-  existsb (fun o => match o with
-                    | OUpd _ n => match n_pcap n with Some _ => true | None => false end
-                    | _ => false end) ops.
-
-Definition atomic_shadow (r c : list dump_entry) : bool :=
-  existsb (fun a =>
-    n_atomic (snd a) &&
-    existsb (fun b =>
-      String.eqb (fst (fst a)) (fst (fst b)) && path_eqb (snd (fst a)) (snd (fst b)) &&
-      negb (n_atomic (snd b)) && value_equal (first_val (snd a)) (first_val (snd b))) c) r.
-
-Definition delete_entries (feed : list notif) : nat :=
-  List.length (filter (fun n => match n_upd n with [] => true | _ :: _ => false end) feed).
-
 Definition known_class (cfg : config) (names : list string) (before : list cop) (o : cop) (ob : cobs) (r : rmap) : N :=
   if existsb (fun e => name_in (fst (fst e)) (readded names before)) (extra_keys r (o_dump ob)) then 4%N
-  else if cfg_event_driven cfg && atomic_shadow r (o_dump ob) then 2%N
-  else if match o with
-          | OUpd _ n => match n_del n with _ :: _ => true | [] => false end
-          | _ => false
-          end && Nat.leb 2 (delete_entries (o_feed ob)) && has_shared_prefix before then 1%N
   else if existsb (origin_written before) (extra_keys r (o_dump ob)) then 3%N
   else 0%N.
 
